@@ -43,7 +43,7 @@ Each is a change to non-test `.go` files that
 2. still COMPILES (`go build ./...`) and still PASSES the complete existing test suite unchanged (`go test -count=1 ./...`, all packages `ok`); do not edit or add `_test.go` files as part of the mutation,
 3. is REALISTIC — something a maintainer could plausibly write while refactoring, optimising, generalising or "fixing" something,
 4. needs something SPECIFIC to manifest (unusual input such as a negative index, h != v zooms, grid edge, high zoom, empty or repeated list entries, malformed string; a multi-step call sequence; repeated or concurrent calls; or two cooperating sites that each look fine alone). Ordinary everyday use should NOT expose it at once.
-Make m1 and m2 different in mechanism and site. Be creative: assume the obvious mutations have been tried already (wrong rounding mode at the prominent site, dropping a de-duplication call, swapping two arguments, a cache keyed on too little, an early-return shortcut before validation, clamping an index, state reused across list elements, one element's zooms used instead of per-axis maxima, a running maximum used before it is final, narrowing an integer type, strings.TrimLeft used as TrimPrefix, a guard replaced by a weaker derived test, package-level scratch state). Look at interactions between functions, at rarely taken branches, at boundary conditions of loops, at error paths, at type conversions, at operator precedence, at off-by-one in range ends, at aliasing of slices.
+Make m1 and m2 different in mechanism and site. Be creative: assume the obvious mutations have been tried already (wrong rounding mode at the prominent site, dropping a de-duplication call, swapping two arguments, a cache keyed on too little, an early-return shortcut before validation, clamping an index, state reused across list elements, one element's zooms used instead of per-axis maxima, a running maximum used before it is final, narrowing an integer type, strings.TrimLeft used as TrimPrefix, a guard replaced by a weaker derived test, package-level scratch state, a seen-set hit that leaves or skips a whole loop, float formatting verbs for integer fields, the sign of Go's % remainder, | versus - precedence in bit-fill idioms, a shadowed error variable, a pre-sized list that is not trimmed, a lookup table with an off-by-one end, a validation moved before/after a normalising fallback). Look at interactions between functions, at rarely taken branches, at boundary conditions of loops, at error paths, at type conversions, at operator precedence, at off-by-one in range ends, at aliasing of slices.
 
 ### r1, r2, r3 — behaviour-preserving refactorings
 Each is a realistic, NON-TRIVIAL refactoring (15–70 changed lines) of the functions that implement the property, of the kind a careful maintainer does during clean-up or modernisation, and does NOT change observable behaviour for ANY input. Be bold in restructuring (the more different the code looks, the better) while keeping behaviour identical. Use different styles for the three, for example: extract helpers or move checks between caller and callee; change the data representation of intermediate results (slices vs maps vs structs vs arrays, strings vs parsed numbers, lookup tables instead of loops); restructure control flow (early returns, switch, loop fusion/fission/interchange, recursion vs iteration, closures); replace arithmetic idioms by equivalent ones (shifts vs Pow, Ldexp, floor division idioms, min/max builtins, unsigned-comparison range tests); replace hand-written code by standard-library calls (slices, maps, strings, cmp packages); introduce small value types with methods. The property must hold exactly as before and the existing suite must pass.
